@@ -26,8 +26,7 @@ static inline _Bool vg_def_normal(const struct jls_signal_def_s * d) {
     if (!(sdf >= 10 && spd >= 10 && eps >= 10 && sdf2 >= 10)) return 0;
     /* each level-1 summary entry covers a whole number of bytes: a multiple of 256 bits of samples
      * (24-bit samples: a multiple of 256/24 = 10 samples = 240 bits = 30 whole bytes) */
-    if (!(sdf % (256u / bits) == 0 && ((uint64_t) sdf * bits) % 8 == 0)) return 0;
-    if (bits != 24 && !(((uint64_t) sdf * bits) % 256 == 0)) return 0;
+    if (!(sdf % (256u / bits) == 0)) return 0;      /* see vg_lemma_bits: equivalent to the statement in bits */
     /* a block holds a whole number of summary entries */
     if (!(spd % sdf == 0 && spd >= sdf)) return 0;
     /* a summary chunk holds a whole number of blocks' entries and a whole number of next-level groups */
@@ -44,10 +43,35 @@ void vg_lemma_divmul(uint32_t a, uint32_t b)
 __CPROVER_requires(b >= 1)
 __CPROVER_assigns()
 __CPROVER_ensures(((a / b) * b == a) == (a % b == 0))
+__CPROVER_ensures((a / b) * b <= a && (uint64_t) (a / b) * b <= a)
 { }
 void vg_lemma_muldiv(uint32_t a, uint32_t b)
 __CPROVER_requires(a >= 1 && (uint64_t) a * b <= 0xffffffffu)
 __CPROVER_assigns()
 __CPROVER_ensures((a * b) % a == 0 && (a * b) / a == b)
+{ }
+/* the arithmetic core of jls_core_signal_def_align after its loop, as a pure fact about five numbers:
+ * sdf = sample_decimate_factor, epd = entries_per_data (after the loop), epd0 = entries_per_data before the loop,
+ * spd = samples_per_data before the final product, eps = entries_per_summary */
+void vg_lemma_align_core(uint32_t sdf, uint32_t epd, uint32_t epd0, uint32_t spd, uint32_t eps)
+__CPROVER_requires(sdf >= 10)
+__CPROVER_requires(epd >= 1 && epd <= epd0)
+__CPROVER_requires(epd0 == spd / sdf)
+__CPROVER_requires((eps / epd) * epd == eps)
+__CPROVER_assigns()
+__CPROVER_ensures((sdf * epd) % sdf == 0 && (sdf * epd) >= sdf && (sdf * epd) >= 10 && (sdf * epd) <= spd)
+__CPROVER_ensures((sdf * epd) / sdf == epd && eps % ((sdf * epd) / sdf) == 0)
+__CPROVER_ensures(!(epd == epd0 && spd % sdf == 0) || (sdf * epd) == spd)
+{ }
+/* a multiple of 256/bits samples is a whole number of bytes, and a multiple of 256 bits for the power-of-two widths */
+void vg_lemma_bits(uint32_t sdf, uint32_t bits)
+__CPROVER_requires(vg_bits_ok(bits) && sdf <= (1u << 26) && sdf % (256u / bits) == 0)
+__CPROVER_assigns()
+__CPROVER_ensures(((uint64_t) sdf * bits) % 8 == 0 && (bits == 24 || ((uint64_t) sdf * bits) % 256 == 0))
+{ }
+void vg_lemma_mulmono(uint32_t a, uint32_t b, uint32_t c)
+__CPROVER_requires(b <= c)
+__CPROVER_assigns()
+__CPROVER_ensures((uint64_t) a * b <= (uint64_t) a * c)
 { }
 #endif
